@@ -234,6 +234,9 @@ func (s *scenario) closureDirs(main *proj.Pkg) map[string]bool {
 	seen := map[string]bool{main.Dir: true}
 	var visit func(pk *proj.Pkg)
 	visit = func(pk *proj.Pkg) {
+		for _, d := range pk.ExtraDirs {
+			seen[d] = true
+		}
 		for _, j := range pk.Imports {
 			lib := s.p.Pkgs[j]
 			if !seen[lib.Dir] {
